@@ -95,7 +95,7 @@ def fs_bytes(s):
 def linux_env(confstr="RO", ctypes_="I", exe="X", policy="-", stderr="", calls=None, loaders="*", stdout=None, exe_name="python", clear=True):
     """loaders: which loader paths exist for subprocess.run: '*' / '' = every NUL-free path, else ',path1,path2' (bytes as latin-1).
     The stand-in for subprocess.run raises what the real one raises for such an argv: ValueError for an embedded NUL,
-    FileNotFoundError for a path that does not exist."""
+    FileNotFoundError for a path that does not exist (_get_musl_version catches both and answers None)."""
     path = os.path.join(_TMP, exe_name)
     if exe[:1] == "F":
         with open(path, "wb") as f: f.write(s2b(exe[1:]))
@@ -193,10 +193,7 @@ def observe(cmd, args):
                 key, confstr, ctypes_, exe, policy, stderr = rest[k:k + 6]
                 with linux_env(confstr, ctypes_, exe, policy, stderr, exe_name="python_" + key, clear=False):
                     many_s = ",".join(_manylinux.platform_tags(archs))
-                    try:
-                        musl = ",".join(_musllinux.platform_tags(archs))
-                    except (ValueError, FileNotFoundError) as e:
-                        musl = "!EXC:" + type(e).__name__
+                    musl = ",".join(_musllinux.platform_tags(archs))
                 out.append(many_s + "|" + musl)
         finally:
             clear_caches()
@@ -313,10 +310,7 @@ def observe(cmd, args):
         res = []
         for x in (m, m2):
             with linux_env(exe=exe, stderr="musl libc (x)\nVersion %d.%d.3\nDynamic Program Loader" % (M, x)):
-                try:
-                    res.append(list(_musllinux.platform_tags(archs)))
-                except ValueError:               # a PT_INTERP path with an embedded NUL: the subject of law.p.noraise, not of this law
-                    return "ok"
+                res.append(list(_musllinux.platform_tags(archs)))
         lo, hi = res
         key = lambda t: tuple(map(int, t.split("_")[1:3]))
         for seq, lim in ((lo, (M, m)), (hi, (M, m2))):
